@@ -140,19 +140,42 @@ static void b_list(unsigned n, _Bool add, _Bool found)
 		CHECK("C09", o.flags & CFGF_MODIFIED, "list set/append marks the option modified");
 	}
 }
+/* the empty list of new values: set empties the option, append leaves what it holds */
+static void b_list_empty(unsigned n, _Bool add)
+{
+	cfg_t cfg; cfg_opt_t o; snap_t s; int rc;
+	memset(&cfg, 0, sizeof cfg); cfg.name = "root";
+	mk_opt(&o, CFGT_INT, n, 0);
+	if ((o.flags & CFGF_MULTI) || !(o.flags & CFGF_LIST)) return;
+	snap(&o, &s);
+	g_getopt_result = &o;
+	rc = add ? cfg_addlist(&cfg, "l", 0) : cfg_setlist(&cfg, "l", 0);
+	CHECK("C09", rc == CFG_SUCCESS, "list set/append of no values succeeds");
+	if (add) {
+		CHECK("C09", o.nvalues == n, "appending no values keeps what the option holds");
+		for (unsigned i = 0; i < NV; i++) if (i < n && o.nvalues == n) CHECK("C09", o.values[i] == s.slot[i] && o.values[i]->number == s.pay[i], "appending no values keeps every value in place");
+	} else
+		CHECK("C09", o.nvalues == 0, "setting the empty list leaves the option without values (size 0, whatever it held)");
+}
 void h_addlist(void)
 {
 #define CALL(n) b_list(n, 1, 1)
-	if (nondet_bool()) { k_flags = CFGF_LIST; b_list(1, 1, 0); } else
+#define CALLE(n) b_list_empty(n, 1)
+	unsigned w_ = nondet_uint();
+	if (w_ == 0) { k_flags = CFGF_LIST; b_list(1, 1, 0); } else if (w_ == 1) FOR_EACH_FLAGS(FOR_EACH_COUNT(CALLE)); else
 	FOR_EACH_FLAGS(FOR_EACH_COUNT(CALL));
+#undef CALLE
 #undef CALL
 	CANARY("addlist");
 }
 void h_setlist(void)
 {
 #define CALL(n) b_list(n, 0, 1)
-	if (nondet_bool()) { k_flags = CFGF_LIST; b_list(1, 0, 0); } else
+#define CALLE(n) b_list_empty(n, 0)
+	unsigned w_ = nondet_uint();
+	if (w_ == 0) { k_flags = CFGF_LIST; b_list(1, 0, 0); } else if (w_ == 1) FOR_EACH_FLAGS(FOR_EACH_COUNT(CALLE)); else
 	FOR_EACH_FLAGS(FOR_EACH_COUNT(CALL));
+#undef CALLE
 #undef CALL
 	CANARY("setlist");
 }
@@ -215,7 +238,7 @@ void h_setnint_byname(void)
 void h_setnstr_byname(void)
 {
 	cfg_t cfg; cfg_opt_t o; snap_t s; int rc;
-	char *v = cfgv_string(2);
+	char *v = nondet_bool() ? cfgv_string(2) : NULL;      /* a NULL string is a value like any other for the validator */
 	_Bool hascb = nondet_bool();
 	memset(&cfg, 0, sizeof cfg); cfg.name = "root";
 	k_flags = nondet_bool() ? 0 : FL_DATA;
@@ -227,7 +250,7 @@ void h_setnstr_byname(void)
 	rc = cfg_setnstr(&cfg, "o", v, 0);
 	CHECK("C14", g_v2_calls == (hascb ? 1 : 0) && (!hascb || (g_v2_str_seen == v && g_v2_opt == &o && g_v2_cfg == &cfg)), "string by-name setter: the validation callback is called once with the value");
 	CHECK("C14,C10", !hascb || g_v2_ret == 0 || (rc == CFG_FAIL && same(&o, &s)), "string by-name setter: a veto fails the setter without effect");
-	CHECK("C14", rc != CFG_SUCCESS || strcmp(o.values[0]->string, v) == 0, "string by-name setter stores the value");
+	CHECK("C14", rc != CFG_SUCCESS || (v ? (o.values[0]->string != NULL && strcmp(o.values[0]->string, v) == 0) : o.values[0]->string == NULL), "string by-name setter stores the value");
 #ifdef CFGV_NO_ALLOC_FAILURE
 	CHECK("C14,C09", (hascb && g_v2_ret != 0) || rc == CFG_SUCCESS, "string by-name setter: an accepted value is stored (no allocation failure in this unit)");
 #endif
